@@ -64,7 +64,7 @@ func c07ExtraRun(r *mon.Run) {
 	idx := 0
 	for _, par := range c07Parents() {
 		for _, pl := range c07Placements() {
-			for variant := 0; variant < 6; variant++ {
+			for variant := 0; variant < 8; variant++ {
 				if !c07ExtraAll && !r.Mine(idx) {
 					idx++
 					continue
@@ -90,6 +90,13 @@ func c07ExtraRun(r *mon.Run) {
 					wantEx = `{"own":1,"@K":9,` + par.members + `}`
 				case 5: // allOf written as a list
 					heir = "{ // {allOf: [\"@p\"]}\n  \"own\": 1\n}"
+				case 6: // the same parent named twice: its members arrive twice
+					heir = "{ // {allOf: [\"@p\", \"@p\"]}\n  \"own\": 1\n}"
+					wantRefused, why = true, "the parent @p is listed twice, so each of its members arrives twice"
+				case 7: // the parent named again behind another type that inherits from it
+					heir = "{ // {allOf: [\"@p2\", \"@p\"]}\n  \"own\": 1\n}"
+					types = append(types, typeDef{Name: "@p2", Text: "{ // {allOf: \"@p\"}\n  \"second\": 2\n}"})
+					wantRefused, why = true, "@p2 inherits from @p and @p is listed as well, so the members of @p arrive twice"
 				}
 				root, extra := pl.root(heir)
 				p := project{Root: root, Types: append(types, extra...)}
